@@ -236,6 +236,35 @@ def run_c13(chk):
     finish(chk, "C13", mfail, [], problems, pr)
 
 
+def ns_histories(rng, n, docs):
+    """histories that edit namespace declarations (set again on the element that has them, set on ancestors and descendants,
+    removed) and move subtrees between scopes"""
+    nscases = []
+    for _ in range(n):
+        t = rng.choice(docs)
+        ops = []
+        for _ in range(rng.randint(1, 6)):
+            hh = lambda: "h%d" % rng.randint(1, 12)
+            k = rng.random()
+            if k < 0.3:
+                ops.append("ap:%s:%s" % (hh(), hh()))
+            elif k < 0.45:
+                ops.append("ib:%s:%s:%s" % (hh(), hh(), hh()))
+            elif k < 0.8:
+                ops.append("sa:%s:%s:%s" % (hh(), lib.enc(rng.choice(["xmlns:p", "xmlns:p", "xmlns"])), lib.enc(rng.choice(["urn:u1", "urn:u2", "urn:u0"]))))
+            elif k < 0.9:
+                ops.append("ra:%s:%s" % (hh(), lib.enc(rng.choice(["p", "xmlns"]))))
+            else:
+                ops.append("rm:%s:%s" % (hh(), hh()))
+        nscases.append((t, ops))
+    return nscases
+
+
+NSDOCS_ = ["<r xmlns:p='urn:u1' xmlns='urn:u0'><p:a><p:b p:x='1'><c/></p:b></p:a><d xmlns:p='urn:u2' xmlns=''><e><p:f/></e></d></r>",
+           "<r><a xmlns:p='urn:u1'><p:b><p:c p:at='v'/></p:b></a><a xmlns:p='urn:u2'><k/></a></r>",
+           "<r xmlns='urn:u0'><mid><leaf><x/></leaf></mid><o xmlns='urn:u1'><i/></o></r>"]
+
+
 def run_c14(chk):
     thorough = chk.tier == "thorough"
     rng, problems, pr, cases, ri, rm, findings = common(chk, "C14", thorough, 500, 3000, 12, 40, 0.12)
@@ -260,24 +289,7 @@ def run_c14(chk):
     NSDOCS = ["<r xmlns:p='urn:u1' xmlns='urn:u0'><p:a><p:b p:x='1'><c/></p:b></p:a><d xmlns:p='urn:u2' xmlns=''><e><p:f/></e></d></r>",
               "<r><a xmlns:p='urn:u1'><p:b><p:c p:at='v'/></p:b></a><a xmlns:p='urn:u2'><k/></a></r>",
               "<r xmlns='urn:u0'><mid><leaf><x/></leaf></mid><o xmlns='urn:u1'><i/></o></r>"]
-    nscases = []
-    for _ in range(400 if thorough else 120):
-        t = rng.choice(NSDOCS)
-        ops = []
-        for _ in range(rng.randint(1, 6)):
-            hh = lambda: "h%d" % rng.randint(1, 12)
-            k = rng.random()
-            if k < 0.3:
-                ops.append("ap:%s:%s" % (hh(), hh()))
-            elif k < 0.45:
-                ops.append("ib:%s:%s:%s" % (hh(), hh(), hh()))
-            elif k < 0.8:
-                ops.append("sa:%s:%s:%s" % (hh(), lib.enc(rng.choice(["xmlns:p", "xmlns:p", "xmlns"])), lib.enc(rng.choice(["urn:u1", "urn:u2", "urn:u0"]))))
-            elif k < 0.9:
-                ops.append("ra:%s:%s" % (hh(), lib.enc(rng.choice(["p", "xmlns"]))))
-            else:
-                ops.append("rm:%s:%s" % (hh(), hh()))
-        nscases.append((t, ops))
+    nscases = ns_histories(rng, 400 if thorough else 120, NSDOCS)
     nsimpl = lib.run_lines(lib.build_harness(), [lib.req("dom", t, NSQ, *ops) for t, ops in nscases], timeout=900, per_line_resume=True)
     ns_ok = 0
     for (t, ops), a in zip(nscases, nsimpl):
@@ -370,6 +382,19 @@ def run_c15(chk):
                 mfail.append((dd, ops, i, "after editing the value items of an attribute supplied from an attribute-list default the "
                               "serialization is rejected by the parser or denotes other content than the DOM reports", str(v) + " " + rec["status"]))
                 break
+    # ---- namespace declarations set again, added and removed through the DOM (monitor only: the DOM model knows no
+    # namespaces): the document must still print to text the parser accepts
+    nsc = ns_histories(rng, 300 if thorough else 100, NSDOCS_)
+    nso = lib.run_lines(lib.build_harness(), [lib.req("dom", t, "", *ops) for t, ops in nsc], timeout=900, per_line_resume=True)
+    for (t, ops), o in zip(nsc, nso):
+        for i, rec in enumerate(D.split_records(o)):
+            chk.count(["ns-edit", t] + ops[:i], nontrivial=i > 0 and rec["status"].startswith("ok"))
+            v = rec["flags"].get("rt")
+            if rec["status"] in ("panic", "abort", "timeout") or (v is not None and v not in ("ok", "skip")):
+                mfail.append((t, ops, i, "after namespace declarations were edited through the DOM the serialization is rejected by the "
+                              "parser or denotes other content than the DOM reports", str(v) + " " + rec["status"]))
+                break
+    chk.cov["namespace_edit_histories"] = len(nsc)
     chk.cov["default_edit_histories"] = len(dlines)
     chk.cov["successful_calls"] = succ
     chk.cov["rule"] = ("%d histories of creation, insertion and data-editing calls with argument strings of up to 4 pieces over "
